@@ -35,9 +35,82 @@ func escaperTable(fn *ssa.Function) (bytes map[int64]bool, entities map[string]b
 					entities[s] = true
 				}
 			}
+		case *ssa.IndexAddr:
+			// a package-level byte → entity table (`var t = [256]string{'&': "&amp;", …}`) indexed by the byte
+			if g, ok := x.X.(*ssa.Global); ok {
+				tableEntries(g, bytes, entities)
+			}
+		case *ssa.Index:
+			if ld, ok := x.X.(*ssa.UnOp); ok {
+				if g, ok := ld.X.(*ssa.Global); ok {
+					tableEntries(g, bytes, entities)
+				}
+			}
+		case *ssa.Lookup:
+			if ld, ok := x.X.(*ssa.UnOp); ok {
+				if g, ok := ld.X.(*ssa.Global); ok {
+					tableEntries(g, bytes, entities)
+				}
+			}
 		}
 	})
 	return
+}
+
+// tableEntries reads the constant entries of a package-level table from the package initialiser:
+// stores through &g[K] (arrays), and map updates / element stores of the value assigned to g.
+func tableEntries(g *ssa.Global, bytes map[int64]bool, entities map[string]bool) {
+	init := g.Pkg.Func("init")
+	if init == nil {
+		return
+	}
+	note := func(k ssa.Value, v ssa.Value) {
+		ki, ok1 := constInt(k)
+		s, ok2 := constString(v)
+		if ok1 && ok2 && strings.HasPrefix(s, "&") && strings.HasSuffix(s, ";") && ki > 0 && ki < 128 {
+			bytes[ki] = true
+			entities[s] = true
+		}
+	}
+	var holders []ssa.Value
+	holders = append(holders, g)
+	eachInstr(init, func(in ssa.Instruction) {
+		if st, ok := in.(*ssa.Store); ok && st.Addr == ssa.Value(g) {
+			v := st.Val
+			for d := 0; d < 4; d++ {
+				holders = append(holders, v)
+				if sl, ok := v.(*ssa.Slice); ok {
+					v = sl.X
+					continue
+				}
+				if ld, ok := v.(*ssa.UnOp); ok && ld.Op == token.MUL {
+					v = ld.X // an array literal built in a local and copied into the variable
+					continue
+				}
+				break
+			}
+		}
+	})
+	isHolder := func(v ssa.Value) bool {
+		for _, h := range holders {
+			if h == v {
+				return true
+			}
+		}
+		return false
+	}
+	eachInstr(init, func(in ssa.Instruction) {
+		switch x := in.(type) {
+		case *ssa.Store:
+			if ia, ok := x.Addr.(*ssa.IndexAddr); ok && isHolder(ia.X) {
+				note(ia.Index, x.Val)
+			}
+		case *ssa.MapUpdate:
+			if isHolder(x.Map) {
+				note(x.Key, x.Value)
+			}
+		}
+	})
 }
 
 var formatterPkg = modPath + "/formatter"
